@@ -10,18 +10,24 @@
     into max_errors+1 consecutive pieces (the pigeonhole premise); short reads always reach
     the aligner of an 'anywhere' adapter.
 
-    Completeness of the search tables is proved for matches that cover the whole adapter
-    (C07_whole_adapter_never_rejected: Front, RightmostFront, Back, Anywhere; pigeonhole over the
-    edit script obtained from C01's distance theorem, character compatibility of the aligner's and
-    the k-mer finder's comparison checked by computation over all ASCII pairs).
+    The property itself is C07_no_change (Proofs/KmerOverlap.v): for every adapter class, every
+    error-rate table with thr 0 = 0, steps of at most one and thr i < i (what int(i * rate) gives for
+    every rate below 1; the harness asserts it for each table it uses), ASCII adapter and read, minimum
+    overlap >= 1 and an adapter shorter than the no-indels cost 100000: the prefiltered match_to equals
+    match_to.  Proof: C01's distance theorem gives an edit script for whatever the aligner reports; its
+    placement is one of four shapes (whole adapter / adapter prefix at the read end / adapter suffix at the
+    read start / read inside the adapter); for each shape the search table contains a set whose k-mers are
+    the E+1 chunks of an adapter piece inside the aligned part with E >= the errors (error_lengths and the
+    back/front overlap loops are characterised), so the pigeonhole leaves one chunk verbatim inside the
+    window of that set (windows only grow in remove_redundant_kmers); a read inside the adapter is short
+    enough for the ShortReadKmerFinder bypass; the aligner's character comparison implies the k-mer
+    finder's for all ASCII pairs and flag sets (by computation).
 
-    NOT proved here (C07_no_change is partial in this respect): completeness for matches that cover
-    only a prefix or suffix of the adapter (the back/front overlap search sets and their windows)
-    and for the non-internal classes.  That clause rests on the correspondence (model =
-    implementation for tables, kmers_present and prefiltered match_to) and on the
-    with/without-prefilter oracle. *)
+    Modelled, not verified: the shift-and bit machinery below "windowed multi-pattern occurrence"
+    (tied by the kmers_present correspondence). *)
 From Coq Require Import ZArith List Bool.
-From CV Require Import Model.Align Model.Adapters Model.Kmer Proofs.AdapterProofs Proofs.KmerProofs Proofs.KmerComplete.
+From CV Require Import Model.Align Model.Adapters Model.Kmer Proofs.AdapterProofs Proofs.KmerProofs Proofs.KmerComplete Proofs.KmerOverlap.
+From CV Require Import Generated.Scores.
 Import ListNotations.
 Open Scope Z_scope.
 
@@ -61,6 +67,23 @@ Theorem C07_whole_adapter_never_rejected : forall thr ad read mt,
 Proof. exact whole_adapter_never_prefiltered. Qed.
 Print Assumptions C07_whole_adapter_never_rejected.
 
+(** the property in full: for every adapter class, the prefilter never changes the answer *)
+Theorem C07_no_change : forall thr ad read,
+  thr 0 = 0 -> (forall i, 0 <= i < zlen (a_seq ad) -> thr i <= thr (i + 1) <= thr i + 1) ->
+  (forall i, 1 <= i <= zlen (a_seq ad) -> thr i < i) -> (forall L, thr L <= thr (zlen (a_seq ad))) ->
+  ascii (a_seq ad) -> ascii read -> 1 <= a_min_overlap ad -> zlen (a_seq ad) < INDEL_COST_OFF ->
+  match_to_prefiltered thr ad read = match_to thr ad read.
+Proof. exact prefilter_no_change. Qed.
+Print Assumptions C07_no_change.
+
+Theorem C07_reported_match_passes : forall thr ad read mt,
+  thr 0 = 0 -> (forall i, 0 <= i < zlen (a_seq ad) -> thr i <= thr (i + 1) <= thr i + 1) ->
+  (forall i, 1 <= i <= zlen (a_seq ad) -> thr i < i) -> (forall L, thr L <= thr (zlen (a_seq ad))) ->
+  ascii (a_seq ad) -> ascii read -> 1 <= a_min_overlap ad -> zlen (a_seq ad) < INDEL_COST_OFF ->
+  match_to thr ad read = Some mt -> prefilter_passes thr ad read = true.
+Proof. exact prefilter_complete. Qed.
+Print Assumptions C07_reported_match_passes.
+
 (** the premises of C07_whole_adapter_never_rejected are satisfiable: -a ACGTACGTAC (10%) on
     TTACGTTCGTACGG is a whole-adapter match with one mismatch *)
 Definition whole_ad : adapter := mkAd Back [65;67;71;84;65;67;71;84;65;67] false false true 3 false.
@@ -69,6 +92,21 @@ Example C07_whole_adapter_premises :
     /\ astart mt = 0 /\ astop mt = 10 /\ merrors mt = 1
     /\ prefilter_passes (thr_of [0;0;0;0;0;0;0;0;0;0;1]) whole_ad [84;84;65;67;71;84;84;67;71;84;65;67;71;71] = true.
 Proof. eexists. vm_compute. repeat split. Qed.
+
+(** the premises of C07_no_change hold for the table of -e 0.1 and a 10-character adapter, and a
+    partial match (adapter prefix ACGTAC at the end of the read) goes through the prefilter *)
+Example C07_no_change_premises :
+  let thr := thr_of [0;0;0;0;0;0;0;0;0;0;1] in
+  thr 0 = 0 /\ (forall i, 0 <= i < zlen (a_seq whole_ad) -> thr i <= thr (i + 1) <= thr i + 1) /\
+  (forall i, 1 <= i <= zlen (a_seq whole_ad) -> thr i < i) /\ (forall L, thr L <= thr (zlen (a_seq whole_ad))) /\
+  match_to thr whole_ad [84;84;71;71;65;67;71;84;65;67] <> None /\
+  match_to_prefiltered thr whole_ad [84;84;71;71;65;67;71;84;65;67] = match_to thr whole_ad [84;84;71;71;65;67;71;84;65;67].
+Proof.
+  cbv zeta. change (zlen (a_seq whole_ad)) with 10.
+  destruct (thr_of_table_ok [0;0;0;0;0;0;0;0;0;0;1] 10 eq_refl eq_refl eq_refl eq_refl eq_refl) as (A & B & C & D).
+  split; [exact A|]. split; [exact B|]. split; [exact C|]. split; [exact D|].
+  split; [vm_compute; discriminate | vm_compute; reflexivity].
+Qed.
 
 (** the two repaired defects, as computations on the model of the repaired code *)
 Definition f7a_ad : adapter := mkAd Suffix [71;67;71;71;65;65;84] false false true 7 false.      (* GCGGAAT$ *)
